@@ -557,7 +557,10 @@ def run_check(prop_id, tier, seed):
 
     # vacuity guard -----------------------------------------------------------------
     missing = [k for k in mod_meta.get('REQUIRED', []) if not totals['counters'].get(k)]
-    if missing and not errors:
+    if missing and totals['timed_out']:
+        # the wall-clock guard cut the run short (loaded machine): inconclusive, not a harness error
+        print('NOTE: run truncated by the wall-clock guard; case classes not reached: %s' % missing)
+    elif missing and not errors:
         errors.append('vacuity guard: required case classes never generated: %s' % missing)
 
     wall = time.time() - t0
